@@ -25,7 +25,15 @@ for d in sorted(glob.glob(os.path.join(VERIF, "mutants", "C*"))):
         if not x.get("applies"):
             c["napply"] += 1; continue
         vio = x.get("violations") or []
+        if isinstance(vio, int):
+            # a follow-up branch's runner recorded the number of VIOLATION lines; first_replay says whether an input was found
+            fr = x.get("first_replay") or {}
+            vio = ["VIOLATION" + (" no-failing-input-found" if fr.get("failing_input_found") is False else "")] * vio
         nofail = bool(vio) and all(t.rstrip().endswith("no-failing-input-found") for t in vio)
+        if "violations" not in x and "violation_lines" in x:
+            # results written by a follow-up branch's own runner: counts instead of the lines themselves
+            vio = ["VIOLATION"] * int(x["violation_lines"])
+            nofail = bool(vio) and int(x.get("no_failing_input_lines") or 0) >= len(vio)
         if is_neutral(n):
             v = "quiet" if x.get("exit") == 0 and not vio else ("neutral-alarm" if x.get("exit") == 1 and nofail else "false-alarm")
         else:
